@@ -37,7 +37,8 @@ viol = origin == 'library'
 ev = {"property_id": prop, "tier": tier, "seed": seed, "level": level, "wall_s": 0,
       "coverage": {"evaluations": 0, "distinct_nontrivial": 0, "rule": "the monitor process died before it could report what it had covered; see violations",
                    "samples": [{"crash_report": excerpt[:1500]}]},
-      "violations": [{"signature": f"{prop}/process-died", "message": head, "origin": origin}] if viol else [],
+      "violations": 1 if viol else 0,
+      "violation_signatures": [f"{prop}/process-died: {head} (raised by {origin} code)"] if viol else [],
       "assumptions": []}
 json.dump(ev, open(os.path.join(root, 'evidence', prop + '.json'), 'w'), indent=1)
 if viol:
